@@ -51,6 +51,9 @@ type program struct {
 	// writerAnnounce: model the writer preference of sync.RWMutex (a pending writer blocks new readers):
 	// needed to see deadlocks of recursive read locking; costs one more point per write lock
 	writerAnnounce bool
+	// unlockPoints: a scheduling point after every Unlock / RUnlock (release points): what a thread does
+	// after leaving a critical section may interleave with the threads that enter it next
+	unlockPoints bool
 }
 
 func parseSteps(s string) []step {
@@ -93,6 +96,8 @@ func parse(p string) *program {
 				pr.seedFull = true
 			case kv == "wa=1":
 				pr.writerAnnounce = true
+			case kv == "up=1":
+				pr.unlockPoints = true
 			}
 		}
 		p = p[:i]
@@ -627,8 +632,12 @@ func init() {
 		pr := parse(p)
 		return &conc.Scenario{
 			Witness: witness,
-			Options: func(o *vrt.Options) { o.LongTimer = dbh.GCPeriod / 2; o.WriterAnnounce = pr.writerAnnounce },
-			Body:    pr.body,
+			Options: func(o *vrt.Options) {
+				o.LongTimer = dbh.GCPeriod / 2
+				o.WriterAnnounce = pr.writerAnnounce
+				o.UnlockPoints = pr.unlockPoints
+			},
+			Body: pr.body,
 			Kind: func(v string) string {
 				k := kindOf(v)
 				if strings.ContainsAny(k, " ") || k == "" {
